@@ -40,7 +40,10 @@ def _ops(draw, kind, d):
             else:
                 ops.append(["advance", draw(st.sampled_from([0, 1, 1, 2, 3, 7]))])
             continue
-        k = draw(st.sampled_from(["step", "step", "advance", "exchange", "exchange", "restart", "inspect"]))
+        k = draw(st.sampled_from(["step", "step", "advance", "exchange", "exchange", "restart", "inspect", "scribble"]))
+        if k == "scribble":
+            ops.append(["scribble"])
+            continue
         if k == "inspect":
             ops.append(["inspect", draw(st.integers(0, 7)) == 0])
             continue
@@ -124,7 +127,7 @@ def check_mode(V, h, S, P):
               % (h.label, hit[:3].tolist(), float(P[hit[0]]), float(best), int(np.argmax(P))))
 
 
-def run_ops(h, ops, V, stats, inputs, snap, xrng):
+def run_ops(h, ops, V, stats, inputs, snap, xrng, scribble_ok=False):
     """Apply one sampler's op list, checking the invariants after every op."""
     prev_len = 0
     for op in ops:
@@ -147,6 +150,14 @@ def run_ops(h, ops, V, stats, inputs, snap, xrng):
                     _viol(V, "exchange.installed", "%s: after an exchange installing %r the last recorded sample is %r"
                           % (h.label, pos.tolist(), S[-1].tolist()))
                 stats["fault_exchange_installs_foreign_point"] += 1
+            elif name == "scribble":
+                # the caller re-uses its start array for something else: recorded history must not follow it
+                # (only done by a sampler that owns a private copy of the inputs, i.e. not inside a shared group)
+                if scribble_ok:
+                    st_arr = h.inputs["start"]
+                    st_arr += 1000.0 + np.arange(st_arr.size, dtype=float).reshape(st_arr.shape)
+                    snap.update(lc.snapshot_inputs(inputs))
+                    stats["fault_caller_overwrites_start_array"] += 1
             elif name == "inspect":
                 inspect_is_pure(V, h, stats, plots=bool(op[1]))
                 if V:
@@ -169,8 +180,8 @@ def run_ops(h, ops, V, stats, inputs, snap, xrng):
         except LibRaised as e:
             _viol(V, "op.raised", "%s: %s" % (h.label, e))
             return
-        bad = oracles.check_probs_belong(h.chain, h.target, h.T, start=max(0, prev_len - 1), label=h.label + " ") \
-            if S.shape[0] else []
+        bad = oracles.check_probs_belong(h.chain, h.target, h.T, start=0 if name == "scribble" else max(0, prev_len - 1),
+                                         label=h.label + " ") if S.shape[0] else []
         for b in bad[:1]:
             _viol(V, "probs.belong", "after %r: %s" % (op, b))
         stats["rows_checked"] += max(0, S.shape[0] - max(0, prev_len - 1))
@@ -320,7 +331,7 @@ def execute(sc):
                 Vs = [[] for _ in range(G)]
                 for k, h in enumerate(hs):
                     if G == 1:
-                        run_ops(h, sc["ops"][k], Vs[k], stats, inputs, snap, None)
+                        run_ops(h, sc["ops"][k], Vs[k], stats, inputs, snap, None, scribble_ok=True)
                     else:
                         t = sim.spawn("s%d" % k, run_ops, (h, sc["ops"][k], Vs[k], stats, inputs, snap, None))
                         t.wake = 0.0
